@@ -238,6 +238,7 @@ def build_batch(traces, extra=None):
     for tr in traces:
         out.append({"id": tr["id"], "backend": tr["backend"], "def": norm_rule(tr["def"]),
                     "rules": tab.conv(conv_rules(tr["rules"])), "src": tr.get("src", ""),
+                    "pairid": tr.get("pairid", -1), "pairname": tr.get("pairname", ""),
                     "steps": tab.conv(tr["steps"])})
     batch = {"stems": stemtab, "www": tab.rank[WWW], "traces": out}
     if extra is not None:
